@@ -56,6 +56,8 @@ def cases(tier, seed):
     cs += [{"kind": "name", "name": name, "tier": tier} for name in sg.sgdic]
     cs += [{"kind": "history", "no": no, "tier": tier} for no in alph.RHOMB]
     cs.append({"kind": "argkinds", "tier": tier})
+    for lo in range(0, len(alph.SETTINGS), 8):
+        cs.append({"kind": "forms", "lo": lo, "hi": lo + 8, "tier": tier})
     return cs
 
 
@@ -137,6 +139,34 @@ def check_case(case):
     if case["kind"] == "argkinds":
         check_argkinds(case, r)
         return r
+    if case["kind"] == "forms":
+        # every way of asking for a setting (oracles.group_forms: number / Hermann-Mauguin name from the harness's own table, compact and
+        # spaced / R suffixes / explicit cell_choice), by keyword and positionally, x positions in every container kind
+        from ..core import variants
+
+        pts = [(F(0), F(0), F(0)), (F(1, 3), F(2, 3), F(1, 4)), (F(1, 2), F(0), F(1, 4)), (XGEN[0], F(3141, 10000), F(5926, 10000))]
+        for no, cc in alph.SETTINGS[case["lo"]:case["hi"]]:
+            ops = O.exact_ops(sg.sg(sgno=no, cell_choice=cc))
+            for pi, pt in enumerate(pts):
+                ref = len(O.orbit(ops, pt))
+                pf = [float(x) for x in pt]
+                for lab, kw in O.group_forms(no, cc):
+                    for form, thunk in (("keyword", lambda: structure.multiplicity(np.array(pf), **kw)),
+                                        ("positional", lambda: structure.multiplicity(pf, kw.get("sgname"), kw.get("sgno"), kw.get("cell_choice", "standard"))),
+                                        ("all-keywords", lambda: structure.multiplicity(position=tuple(pf), sgname=kw.get("sgname"), sgno=kw.get("sgno"), cell_choice=kw.get("cell_choice", "standard")))):
+                        try:
+                            got = thunk()
+                        except Exception as ex:
+                            got = repr(ex)
+                        r.evals += 1
+                        if got != ref:
+                            r.violation("forms:Sg%d/%s:%s:%s:pos=%s" % (no, cc, lab, form, ",".join(map(str, pt))), "multiplicity of the group the caller asked for, however it was asked", ref, got)
+                r.nontrivial.add("forms:Sg%d/%s:m%d" % (no, cc, ref))
+            variants(r, "forms:Sg%d/%s:position kinds" % (no, cc), structure.multiplicity, [[0.5, 0.0, 0.25], None, no, cc], 0, 0, 0)
+            variants(r, "forms:Sg%d/%s:position kinds" % (no, cc), structure.multiplicity, [[0.0, 1.0, -1.0], None, no, cc], 0, 0, 0)
+        r.states = case["hi"] - case["lo"]
+        r.transitions = r.evals
+        return r
     if case["kind"] == "number":
         no, cc = case["no"], case["cc"]
         g = sg.sg(sgno=no, cell_choice=cc)
@@ -146,7 +176,8 @@ def check_case(case):
         pos = positions(tier)[case["lo"]:case["hi"]]
     else:
         name = case["name"]
-        g = sg.sg(sgname=name)
+        known = O.name_to_setting().get(name)  # which group the name DENOTES (harness table); unknown aliases: whatever group the library maps them to
+        g = sg.sg(sgno=known[0], cell_choice=known[1]) if known else sg.sg(sgname=name)
         name_rt = "".join(list(name))
         call = lambda pf: structure.multiplicity(pf, sgname=name_rt)
         tag = "name:%s" % name
